@@ -367,7 +367,27 @@ class Objects:
     def warm(self, kinds):
         """First use of classes in a chosen order: one instance each (constructed, its properties assigned; never exported)."""
         for kind in kinds:
-            self.fam[kind][0]('/warm', 0, dict(WARM_VALS))
+            try:
+                self.fam[kind][0]('/warm', 0, dict(WARM_VALS))
+            except Exception:       # noqa   (reported when an object of the history cannot be constructed)
+                pass
+
+
+def try_make(ctx, world, hist, step_no, path, kind, vals, judge=True):
+    """Construct the object of an export call (its declared properties assigned in __init__).  -> ident, or None when
+    the construction raises: then there is nothing to export and no announcement will ever be seen - reported as the
+    failure of this export, with the input, instead of ending the run with a traceback."""
+    try:
+        return world.o.make(path, kind, vals)
+    except Exception as e:       # noqa
+        if judge and not world.tainted:
+            ctx.violation('export-signal-wrong',
+                          'the object of an export call cannot even be constructed with its declared properties assigned '
+                          '(%s): no export, no announcement' % type(e).__name__,
+                          case_input(hist, step_no, ['signals'], world), observed='construction raised ' + type(e).__name__,
+                          expected=['InterfacesAdded', path])
+        ctx.stat('op=construction-raised')
+        return None
 
 
 class World:
@@ -945,7 +965,9 @@ def run_history(ctx, stream, hist, lines, expect, judge=True, client=False):
     rot = 0
     for step_no, op in enumerate(hist['ops'], 1):
         if op[0] == 'export':
-            ident = world.make(op[1], op[2], op[3])
+            ident = try_make(ctx, world, hist, step_no, op[1], op[2], op[3], judge)
+            if ident is None:
+                continue
             res = world.export_ident(ident)
             lines.append(export_line(world, ident))
             ctx.stat('op=export' + ('' if world.registry[ident][4] else '-unsendable'))
@@ -1200,7 +1222,9 @@ def run_handlers_history(ctx, stream, hist, lines, expect, judge=True):
         line = None
         failing = False
         if op[0] == 'export':
-            ident = objs.make(op[2], op[3], op[4])
+            ident = try_make(ctx, w, hist, step_no, op[2], op[3], op[4], judge)
+            if ident is None:
+                continue
             res = w.export_ident(ident)
             line = export_line(w, ident)
             ctx.stat('op=export' + ('' if objs.registry[ident][4] else '-unsendable'))
@@ -1216,13 +1240,17 @@ def run_handlers_history(ctx, stream, hist, lines, expect, judge=True):
             res = w.export_ident(ident)
             line = export_line(w, ident)
         elif op[0] == 'export-raising':
-            ident = objs.make(op[2], 'KRaise', op[3])
+            ident = try_make(ctx, w, hist, step_no, op[2], 'KRaise', op[3], False)
+            if ident is None:
+                continue
             res = w.export_ident(ident, fail=('raise', op[4]))
             line = export_line(w, ident, ok=False)
             failing = True
             ctx.stat('op=export-raising' + ('-over-live' if op[2] in w.exported else ''))
         elif op[0] == 'export-badpath':
-            ident = objs.make(op[2], 'KPath', op[4])
+            ident = try_make(ctx, w, hist, step_no, op[2], 'KPath', op[4], False)
+            if ident is None:
+                continue
             res = w.export_ident(ident, fail=('path', op[3]))
             line = export_line(w, ident, ok=False, path=op[3])
             failing = True
